@@ -88,6 +88,26 @@ def run (t : Tier) : Emit Unit := do
       | .err _ => some "err:other"
       | .panic => none
     emit "C14" (parseCase whole spec "framing")
+  -- (3b) the same, systematically: every kind x every small declared length (0..12) and the lengths around the body's
+  for k in [0:25] do
+    let d ← liftGen (genDescriptorOfKind k)
+    let body := (writeDescriptor d).drop 2
+    let rest ← liftGen (genDescriptors 30)
+    let restBytes := writeDescriptors rest
+    let lens := ((List.range 13) ++ [body.length - 1, body.length + 1, body.length + 7, 255]).eraseDups.filter (· ≤ 255)
+    for declared in lens do
+      for pad in [0, 1] do
+        -- pad = 1: the descriptor is the last thing in the buffer (nothing follows to read into)
+        let filler ← liftGen (randBytes (declared - body.length))
+        let content := (body ++ filler).take declared
+        let tail := if pad = 0 then restBytes else []
+        let whole := packFields [(0xf, 4), (2 + content.length + tail.length, 12)] ++ [d.tag, declared] ++ content ++ tail
+        let m := parseDescriptors.run whole
+        let spec := match m with
+          | .ok (ds, _) => some s!"ok:off={whole.length}:{showDescs (ds.take 1 ++ (if pad = 0 then rest.map expectParsed else []))}"
+          | .err _ => some "err:other"
+          | .panic => none
+        emit "C14" (parseCase whole spec "framing-systematic")
   -- (4) malformed: mutations, truncations at every offset, random bytes (model only)
   for _ in [0:300 * t.scale] do
     let ds ← liftGen (genDescriptors 80)
